@@ -10,8 +10,11 @@ pub fn arith<T: Subj>(tier: Tier) -> Plan<T> {
     let (label, a, b) = if bits == 8 {
         ("FULL^2", sets::full(8), sets::full(8))
     } else if bits == 16 {
-        if tier == Tier::Thorough {
+        if tier == Tier::Thorough && w == 8 {
+            // the complete 2^32 pair space, for the u8-digit representation (two digits)
             ("FULL^2", sets::full(16), sets::full(16))
+        } else if tier == Tier::Thorough {
+            ("FULL x GRID", sets::full(16), st.clone())
         } else {
             // quick: every 16-bit value against a reduced boundary set (FULL^2 is the thorough tier)
             let mut b = sets::grid(w, n, 10);
